@@ -199,11 +199,30 @@ MUTANTS = [
 ]
 
 
+def corpus_mutants():
+    """the seeded changes (firing, for the checks recorded as reporting them) and the behaviour-preserving refactorings of one file per
+    property (silent) as additional self-test edits; both are unified diffs applied with patch(1)."""
+    import glob
+    import json
+    out = []
+    for f in sorted(glob.glob(os.path.join(VERIF, "seeded", "*", "meta.json"))):
+        m = json.load(open(f))
+        props = [p for p in m.get("checks_that_report_a_violation", [])]
+        if props:
+            out.append(("seed-" + m["id"], "firing", props, None, "", "@patch:" + os.path.join(os.path.dirname(f), "patch.diff"), ""))
+    return out
+
+
 def apply_mutant(m, scratch):
     mid, kind, props, fname, func, old, new = m
     src_root = os.path.join(os.environ.get("GTSA_REPO", "/repo"), "gaussian_toolbox")
     dst = os.path.join(scratch, mid)
     shutil.copytree(src_root, os.path.join(dst, "gaussian_toolbox"))
+    if old.startswith("@patch:"):
+        r = subprocess.run(["patch", "-p1", "-s", "-d", dst, "-i", old[7:]], capture_output=True, text=True)
+        if r.returncode != 0:
+            return None, f"stale: patch does not apply ({(r.stdout + r.stderr).strip()[:120]})"
+        return dst, None
     p = os.path.join(dst, "gaussian_toolbox", fname)
     s = open(p).read()
     if s.count(old) != 1:
@@ -228,7 +247,7 @@ def run_check(prop, repo):
 
 def selftest(prop, jobs=8):
     """returns dict(fired, missed, silent_ok, alarmed, stale, details)"""
-    rel = [m for m in MUTANTS if prop in m[2]]
+    rel = [m for m in MUTANTS + corpus_mutants() if prop in m[2]]
     scratch = tempfile.mkdtemp(prefix="gtsa_selftest_")
     out = dict(fired=[], missed=[], silent_ok=[], alarmed=[], stale=[], details={})
     try:
